@@ -249,9 +249,15 @@ def check(case, rec):
     rec.cls("fmt:%s" % lay.get("format"))
     date = c01.date_from_json(case["date"])
     gby = case["generated_by"]
-    text = t.to_json(gby, creation_date=date)
     sio = io.StringIO()
-    ret = t.to_json(gby, direct_io=sio, creation_date=date)
+    if case.get("chunk", 0) % 5 == 2:
+        # to_json(generated_by, direct_io, creation_date), positionally
+        text = t.to_json(gby, None, date)
+        ret = t.to_json(gby, sio, date)
+        rec.cls("to_json-called-positionally")
+    else:
+        text = t.to_json(gby, creation_date=date)
+        ret = t.to_json(gby, direct_io=sio, creation_date=date)
     streamed = sio.getvalue()
 
     def bad(sub, msg):
